@@ -88,6 +88,41 @@ func symbols() *sl.Symbols {
 
 type cfgT struct {
 	Inst sl.InstCfg `json:"inst"`
+	Big  bool       `json:"big,omitempty"` // the bulk alphabet and its universe
+}
+
+// bulk batches: 10000 points (the HTTP layer's maximum per request), so that any
+// chunking or batching threshold below that lies inside one batch
+func bulk(name, kind string, lastIsU1 bool, doc func(i int) sl.Doc) sl.Op {
+	op := sl.Op{Name: name, Kind: kind}
+	for i := 0; i < 9999; i++ {
+		op.Ids = append(op.Ids, 2000+i)
+		if doc != nil {
+			op.Docs = append(op.Docs, doc(i))
+		}
+	}
+	last := 11999
+	if lastIsU1 {
+		last = 1
+	}
+	op.Ids = append(op.Ids, last)
+	if doc != nil {
+		op.Docs = append(op.Docs, doc(-1))
+	}
+	return op
+}
+
+var bigUniverse = []int{1, 2, 2000, 2001, 2126, 2127, 2128, 2129, 6094, 6095, 6096, 6097, 11997, 11998, 11999}
+
+func bigSymbols() *sl.Symbols {
+	return sl.NewSymbols(
+		sl.Op{Name: "ins[u1]", Kind: "ins", Ids: []int{1}, Docs: []sl.Doc{docA(1)}},
+		bulk("ins10000(fresh ids)", "ins", false, func(i int) sl.Doc { return sl.Doc{"k": int64(i)} }),
+		bulk("ins10000(last id is u1)", "ins", true, func(i int) sl.Doc { return sl.Doc{"k": int64(i)} }),
+		bulk("upd10000(last id is u1)", "upd", true, func(i int) sl.Doc { return sl.Doc{"k": "_delete", "j": int64(i)} }),
+		bulk("del10000(last id is u1)", "del", true, nil),
+		sl.Op{Name: "del{u1}", Kind: "del", Ids: []int{1}},
+	)
 }
 
 func factory(raw json.RawMessage) (seqx.System, error) {
@@ -99,13 +134,17 @@ func factory(raw json.RawMessage) (seqx.System, error) {
 	if err != nil {
 		return nil, err
 	}
-	return &sl.ShardSystem{In: in, M: sl.NewModel(c.Inst.Schema, in.Cfg.MaxPointSize), Syms: symbols(),
-		Battery: func(s *sl.ShardSystem) { s.In.PointsBattery(&s.Obs, s.M, universe) },
+	syms, uni := symbols(), universe
+	if c.Big {
+		syms, uni = bigSymbols(), bigUniverse
+	}
+	return &sl.ShardSystem{In: in, M: sl.NewModel(c.Inst.Schema, in.Cfg.MaxPointSize), Syms: syms,
+		Battery: func(s *sl.ShardSystem) { s.In.PointsBattery(&s.Obs, s.M, uni) },
 		KeyFn:   sl.PointStoreKey}, nil
 }
 
 func master(cfg *harness.Config, rep *harness.Report) {
-	rep.Rule = "breadth-first search over histories of insert/update/delete batches (25-symbol alphabet incl. empty, duplicate-id (insert, update, delete), existing-id, unknown-id, exactly-at / one-over the size limit, nested and _delete batches) on the real shard; after every batch: returned error/ids vs the plain-map model, reported count, read of every id, select-all, and the raw points/internal buckets (bijection, counters, free list). evaluations = individual comparisons; states = distinct (model, point-store abstraction) pairs"
+	rep.Rule = "breadth-first search over histories of insert/update/delete batches (25-symbol alphabet incl. empty, duplicate-id (insert, update, delete), existing-id, unknown-id, exactly-at / one-over the size limit, nested and _delete batches) on the real shard, plus every history of length <= 2 over bulk batches of 10000 points (the HTTP maximum; accepted, and rejected at the last point); after every batch: returned error/ids vs the plain-map model, reported count, read of every id, select-all, and the raw points/internal buckets (bijection, counters, free list). evaluations = individual comparisons; states = distinct (model, point-store abstraction) pairs"
 	rep.Assumptions = []string{"documents are maps as the HTTP layer produces them", "which freed node id is reused first depends on Go map iteration and is not enumerated", "bbolt commit atomicity"}
 	p := pool.New(pool.Options{CPUsPerWorker: 2, JobTimeout: 30 * time.Second})
 	syms := symbols()
@@ -123,12 +162,15 @@ func master(cfg *harness.Config, rep *harness.Report) {
 		d1, d2 = 6, 5
 	}
 	specs := []seqx.Spec{
-		{Name: "noindex/bbolt", Cfg: cfgT{sl.InstCfg{Backend: "bbolt", CacheSize: -1, Schema: none, MaxPointSize: maxPointSize, Proxy: true}}, Alphabet: syms.Refs(), Depth: d1, Dedup: true,
+		{Name: "noindex/bbolt", Cfg: cfgT{Inst: sl.InstCfg{Backend: "bbolt", CacheSize: -1, Schema: none, MaxPointSize: maxPointSize, Proxy: true}}, Alphabet: syms.Refs(), Depth: d1, Dedup: true,
 			Starts: [][]any{{}, syms.Refs("ins[u1,u2]", "ins[u3:{}]", "del{u1,u2,u3}")}},
-		{Name: "full/bbolt/warm", Cfg: cfgT{sl.InstCfg{Backend: "bbolt", CacheSize: -1, Schema: fullSchema(), MaxPointSize: maxPointSize, Proxy: true}}, Alphabet: syms.Refs(), Depth: d2, Dedup: true,
+		{Name: "full/bbolt/warm", Cfg: cfgT{Inst: sl.InstCfg{Backend: "bbolt", CacheSize: -1, Schema: fullSchema(), MaxPointSize: maxPointSize, Proxy: true}}, Alphabet: syms.Refs(), Depth: d2, Dedup: true,
 			Starts: [][]any{{}, syms.Refs("ins[u1,u2]", "ins[u3:{}]", "del{u1,u4}")}},
-		{Name: "full/bbolt/reopen", Cfg: cfgT{sl.InstCfg{Backend: "bbolt", CacheSize: 0, Schema: fullSchema(), MaxPointSize: maxPointSize, ReopenEachOp: true, Proxy: true}}, Alphabet: syms.Refs(), Depth: d2 - 1, Dedup: true},
+		{Name: "full/bbolt/reopen", Cfg: cfgT{Inst: sl.InstCfg{Backend: "bbolt", CacheSize: 0, Schema: fullSchema(), MaxPointSize: maxPointSize, ReopenEachOp: true, Proxy: true}}, Alphabet: syms.Refs(), Depth: d2 - 1, Dedup: true},
 	}
+	// bulk batches: every history of length <= 2 over {insert u1, insert / update / delete 10000 points whose last id is u1 or fresh}
+	big := bigSymbols()
+	specs = append(specs, seqx.Spec{Name: "noindex/bbolt/bulk", Cfg: cfgT{Inst: sl.InstCfg{Backend: "bbolt", CacheSize: -1, Schema: none, MaxPointSize: maxPointSize, Proxy: true}, Big: true}, Alphabet: big.Refs(), Depth: 2, Dedup: true})
 	seqx.Explore(cfg, rep, p, specs)
 }
 
